@@ -3,13 +3,20 @@ package gofakes3
 import (
 	"fmt"
 	"io"
-	"io/ioutil"
 )
+
+// errChunkFraming is returned for an aws-chunked body that is not framed as
+// "<hex size>;chunk-signature=<64 bytes>\r\n<data>\r\n", repeated and ended
+// by a chunk of size 0; a body that ends early is an ErrIncompleteBody.
+var errChunkFraming = ErrorMessage(ErrIncompleteBody, "malformed aws-chunked body")
+
+const chunkSignatureField = "chunk-signature="
 
 type chunkedReader struct {
 	inner         io.Reader
 	chunkRemain   int
 	notFirstChunk bool
+	sawLastChunk  bool
 }
 
 func newChunkedReader(inner io.Reader) *chunkedReader {
@@ -23,24 +30,24 @@ func newChunkedReader(inner io.Reader) *chunkedReader {
 func (r *chunkedReader) Read(p []byte) (n int, err error) {
 	sizeToRead := len(p)
 	for sizeToRead > 0 {
-		if r.chunkRemain > sizeToRead {
-			// read sizeToRead bytes from inner reader
-			// to p, start from n.
-			// n is bytes already read.
-			innerN, err := r.inner.Read(p[n : n+sizeToRead])
+		if r.sawLastChunk {
+			return n, io.EOF
+		}
+		if r.chunkRemain > 0 {
+			// read until this chunk ends, or as much of it as fits:
+			want := r.chunkRemain
+			if want > sizeToRead {
+				want = sizeToRead
+			}
+			innerN, err := r.inner.Read(p[n : n+want])
 			// the inner reader may return fewer bytes than asked for:
 			r.chunkRemain -= innerN
 			sizeToRead -= innerN
 			n += innerN
-			if err != nil {
-				return n, err
+			if err == io.EOF && r.chunkRemain > 0 {
+				// the body ends inside the data of a chunk
+				err = ErrIncompleteBody
 			}
-		} else if r.chunkRemain > 0 {
-			// read until this chunk ends
-			innerN, err := r.inner.Read(p[n : n+r.chunkRemain])
-			r.chunkRemain -= innerN
-			n += innerN
-			sizeToRead -= innerN
 			if err != nil {
 				return n, err
 			}
@@ -48,25 +55,58 @@ func (r *chunkedReader) Read(p []byte) (n int, err error) {
 			if !r.notFirstChunk {
 				// Is first chunk.
 				r.notFirstChunk = true
-			} else {
-				// skip last chunk's b"\r\n"
-				_, err = io.CopyN(ioutil.Discard, r.inner, 2)
-				if err != nil {
-					return n, err
-				}
+			} else if err := r.expect("\r\n"); err != nil {
+				// the last chunk's data is followed by b"\r\n"
+				return n, err
 			}
 			// read next chunk header
 			chunkSize := 0
 			_, err = fmt.Fscanf(r.inner, "%x;", &chunkSize)
 			if err != nil {
+				// the body must end with a chunk of size 0, not just end
+				return n, unexpectedEOF(err)
+			}
+			if chunkSize < 0 {
+				return n, errChunkFraming
+			}
+			if err := r.expect(chunkSignatureField); err != nil {
+				return n, err
+			}
+			var signature [64]byte
+			if _, err := io.ReadFull(r.inner, signature[:]); err != nil {
+				return n, unexpectedEOF(err)
+			}
+			if err := r.expect("\r\n"); err != nil {
 				return n, err
 			}
 			r.chunkRemain = chunkSize
-			_, err = io.CopyN(ioutil.Discard, r.inner, 16+64+2) // "chunk-signature=" + sizeOfHash + "\r\n"
-			if err != nil {
-				return n, err
+			if chunkSize == 0 {
+				if err := r.expect("\r\n"); err != nil {
+					return n, err
+				}
+				r.sawLastChunk = true
 			}
 		}
 	}
 	return n, nil
+}
+
+// expect reads len(literal) bytes, which must be literal.
+func (r *chunkedReader) expect(literal string) error {
+	var buf [len(chunkSignatureField)]byte
+	got := buf[:len(literal)]
+	if _, err := io.ReadFull(r.inner, got); err != nil {
+		return unexpectedEOF(err)
+	}
+	if string(got) != literal {
+		return errChunkFraming
+	}
+	return nil
+}
+
+func unexpectedEOF(err error) error {
+	if err == io.EOF || err == io.ErrUnexpectedEOF {
+		return ErrIncompleteBody
+	}
+	return err
 }
